@@ -66,7 +66,7 @@ pub open spec fn deconv_out(i: int, k: int, s: int, p: int) -> int { (i - 1) * s
                 rect4(kgradient@, kf as int, kc as int, kh as int, kw as int), rect3(igradient@, kc as int, ih as int, iw as int),
 //@end
 
-//@unit deconv.backward prop=C01
+//@unit deconv.backward prop=C01 search=deconv.backward
 impl Deconvolution {
 fn backward_nest(
     &self,
